@@ -120,16 +120,7 @@ func registerSynthetic() error {
 	return nil
 }
 
-const (
-	idxMain   = 0
-	idxSynthA = 6
-	idxSynthB = 7
-	idxSynthC = 8
-	idxSynthD = 9
-)
-
-// genNet draws a network; collisionNets=false leaves out synthC (whose base58
-// addresses cannot be decoded by design) .
+// genNet draws one of the ten networks.
 func genNet(t *rapid.T, label string) tnet {
 	return nets[rapid.IntRange(0, len(nets)-1).Draw(t, label)]
 }
